@@ -168,8 +168,15 @@ func c12Units(tier string) []hx.Unit {
 	for _, a := range outcomes {
 		for _, b := range outcomes {
 			seqs = append(seqs, []string{a, b})
-			if tier == "thorough" {
-				for _, c := range outcomes {
+		}
+	}
+	if tier == "thorough" {
+		// three outcomes in a row over one representative of each kind (good, partly unresolvable, failing
+		// fetch, parseable non-document, malformed)
+		rep := []string{"A", "U", "err", "null", "malformed"}
+		for _, a := range rep {
+			for _, b := range rep {
+				for _, c := range rep {
 					seqs = append(seqs, []string{a, b, c})
 				}
 			}
@@ -379,7 +386,7 @@ func init() {
 	hx.Register(&hx.Prop{
 		ID:    "C12",
 		Title: "The block relay keeps answering whatever the config source does",
-		Rule: "for every sequence of 2 (thorough 3) fetch outcomes over {doc A, doc B, doc U (one validator unresolvable), error, malformed, empty, '{}', 'null'} (the first consumed by the constructor) and every set of 1-2 concurrent requests over {lookup v1, lookup v2, auction v1, auction v2, registration round}: all interleavings of the refresher and the request goroutines on the real blockrelay service within the preemption bound (quick 1, thorough 2), followed by a further refresh, lookups and bid requests (as a beacon node makes them) for both validators; " +
+		Rule: "for every sequence of 2 fetch outcomes (thorough: also every sequence of 3 over five representative outcomes) over {doc A, doc B, doc U (one validator unresolvable), error, malformed, empty, '{}', 'null'} (the first consumed by the constructor) and every set of 1-2 concurrent requests over {lookup v1, lookup v2, auction v1, auction v2, registration round}: all interleavings of the refresher and the request goroutines on the real blockrelay service within the preemption bound (quick 1, thorough 2), followed by a further refresh, lookups and bid requests (as a beacon node makes them) for both validators; " +
 			"oracle: every call returns, no goroutine blocked, final lookups answer from the last good document (fallback if none); non-trivial = at least one contended scheduling point; distinct = distinct request-result vectors",
 		Assumptions: []string{
 			"RWMutex has Go's writer preference (a pending writer blocks new readers)",
